@@ -1,7 +1,6 @@
 /-
-C09 — the `static_vector` / algorithm loops the sets call: move-down erase, linear find_if,
-remove_if compaction.  Each is shown to stay inside the vector and to equal the list function
-it implements.
+C09 — the `static_vector` loop the sets call for erase: the move-down of the tail.  It is shown to
+stay inside the vector and to equal the list function it implements.
 -/
 import TetlProofs.C09.Rotate
 namespace Tetl.C09
@@ -71,109 +70,5 @@ theorem svErase_eq (l : List α) (f la : Nat) (h1 : f ≤ la) (h2 : la ≤ l.len
     have : l.length - (la - f) = (l.take f ++ l.drop la).length := by simp; omega
     rw [this, List.take_left']
     rfl
-
-/-- `find_if`: stops at the first element satisfying `p` (offset `|W|`), or at `end()` -/
-theorem findIfLoop_split (p : α → Bool) : ∀ (R P : List α),
-    ∃ W D, R = W ++ D ∧ (∀ x ∈ W, p x = false) ∧ (∀ d D', D = d :: D' → p d = true) ∧
-      findIfLoop (P ++ R) p R.length P.length = .ok (P.length + W.length) := by
-  intro R
-  induction R with
-  | nil => intro P; exact ⟨[], [], rfl, by simp, by simp, by simp [findIfLoop]⟩
-  | cons r R ih =>
-    intro P
-    cases hp : p r with
-    | true =>
-      refine ⟨[], r :: R, rfl, by simp, ?_, ?_⟩
-      · intro d D' h; cases h; exact hp
-      · simp [findIfLoop, rd_append_mid, hp]
-    | false =>
-      obtain ⟨W, D, hR, hW, hD, hres⟩ := ih (P ++ [r])
-      refine ⟨r :: W, D, by rw [hR]; simp, ?_, hD, ?_⟩
-      · intro x hx
-        rcases List.mem_cons.mp hx with h | h
-        · rw [h]; exact hp
-        · exact hW x h
-      · simp only [List.length_cons, findIfLoop, rd_append_mid, hp, Bool.false_eq_true, if_false]
-        have e : P ++ r :: R = (P ++ [r]) ++ R := by simp
-        have e2 : P.length + 1 = (P ++ [r]).length := by simp
-        rw [e, e2, hres]
-        simp; omega
-
-/-- compaction loop of `remove_if`: kept prefix `W`, garbage `G` (non-empty), unread `R` -/
-theorem removeLoop_spec (p : α → Bool) : ∀ (R W G : List α), G ≠ [] →
-    ∃ G2, removeLoop p R.length (W ++ G ++ R) W.length (W.length + G.length)
-        = .ok (W ++ R.filter (fun x => !p x) ++ G2, W.length + (R.filter (fun x => !p x)).length)
-      ∧ (W ++ R.filter (fun x => !p x) ++ G2).length = (W ++ G ++ R).length := by
-  intro R
-  induction R with
-  | nil => intro W G _; exact ⟨G, by simp [removeLoop], by simp⟩
-  | cons r R ih =>
-    intro W G hG
-    obtain ⟨g, G', rfl⟩ := List.exists_cons_of_ne_nil hG
-    have hrd : rd (W ++ (g :: G') ++ r :: R) (W.length + (g :: G').length) = .ok r := by
-      have e : W ++ (g :: G') ++ r :: R = (W ++ g :: G') ++ r :: R := by simp
-      rw [e]; exact rd_mid' _ _ _ _ (by simp)
-    simp only [List.length_cons] at hrd
-    cases hp : p r with
-    | false =>
-      have hwr : wr (W ++ (g :: G') ++ r :: R) W.length r = .ok (W ++ r :: (G' ++ r :: R)) := by
-        have e : W ++ (g :: G') ++ r :: R = W ++ g :: (G' ++ r :: R) := by simp
-        rw [e]; exact wr_mid _ _ _ _
-      obtain ⟨G2, h2, hl2⟩ := ih (W ++ [r]) (G' ++ [r]) (by simp)
-      refine ⟨G2, ?_, ?_⟩
-      · simp only [List.length_cons, removeLoop, hrd, hp, Bool.not_false, if_true, hwr]
-        have e1 : W ++ r :: (G' ++ r :: R) = (W ++ [r]) ++ (G' ++ [r]) ++ R := by simp
-        have e2 : W.length + (G'.length + 1) + 1 = (W ++ [r]).length + (G' ++ [r]).length := by simp; omega
-        have e3 : W.length + 1 = (W ++ [r]).length := by simp
-        rw [e1, e2, e3, h2]
-        simp [List.filter, hp]; omega
-      · simp [List.filter, hp] at hl2 ⊢; omega
-    | true =>
-      obtain ⟨G2, h2, hl2⟩ := ih W (g :: G' ++ [r]) (by simp)
-      refine ⟨G2, ?_, ?_⟩
-      · simp only [List.length_cons, removeLoop, hrd, hp, Bool.not_true, Bool.false_eq_true, if_false]
-        have e1 : W ++ (g :: G') ++ r :: R = W ++ (g :: G' ++ [r]) ++ R := by simp
-        have e2 : W.length + (G'.length + 1) + 1 = W.length + (g :: G' ++ [r]).length := by simp; omega
-        rw [e1, e2, h2]
-        simp [List.filter, hp]
-      · simp [List.filter, hp] at hl2 ⊢; omega
-
-/-- `remove_if(begin,end,pred)`: the first `n` elements of the result are the kept elements in
-    order, `n` their number, and the vector keeps its length -/
-theorem removeIf_spec (p : α → Bool) (l : List α) :
-    ∃ l' , removeIf l p = .ok (l', (l.filter (fun x => !p x)).length)
-      ∧ l'.take (l.filter (fun x => !p x)).length = l.filter (fun x => !p x) ∧ l'.length = l.length := by
-  unfold removeIf
-  obtain ⟨W, D, hl, hW, hD, hf⟩ := findIfLoop_split p l []
-  simp only [List.nil_append, List.length_nil, Nat.zero_add] at hf
-  rw [hf]
-  simp only
-  have hWf : W.filter (fun x => !p x) = W := by
-    rw [List.filter_eq_self]; intro x hx; simp [hW x hx]
-  cases D with
-  | nil =>
-    simp only [List.append_nil] at hl
-    subst hl
-    rw [if_neg (by simp)]
-    exact ⟨l, by rw [hWf], by rw [hWf]; simp, rfl⟩
-  | cons d D =>
-    have hpd : p d = true := hD d D rfl
-    have hne : W.length ≠ l.length := by rw [hl]; simp
-    rw [if_pos hne]
-    have hl' : l = W ++ [d] ++ D := by rw [hl]; simp
-    obtain ⟨G2, h2, hl2⟩ := removeLoop_spec p D W [d] (by simp)
-    have hfil : l.filter (fun x => !p x) = W ++ D.filter (fun x => !p x) := by
-      rw [hl']; simp [List.filter_append, hWf, List.filter, hpd]
-    have e1 : l.length - W.length - 1 = D.length := by rw [hl']; simp
-    have hcall : removeLoop p (l.length - W.length - 1) l W.length (W.length + 1)
-        = .ok (W ++ D.filter (fun x => !p x) ++ G2, W.length + (D.filter (fun x => !p x)).length) := by
-      rw [e1]
-      conv => lhs; arg 3; rw [hl']
-      simpa using h2
-    refine ⟨W ++ D.filter (fun x => !p x) ++ G2, ?_, ?_, ?_⟩
-    · rw [hcall, hfil]; simp
-    · rw [hfil, List.take_left']
-      rfl
-    · rw [hl2, hl']
 
 end Tetl.C09
